@@ -7,6 +7,7 @@
   idempotent on them (`Idem`, the C04 theorem; `idem_of_frag` discharges it for the C04 fragment).
 -/
 import PgProofs.SymTyped
+import PgProofs.SymTypedSchema
 import PgGen.C03Tables
 namespace Pg.C03
 open Pg.Typing
@@ -384,43 +385,92 @@ theorem C03_dict_batch_preserve (env : Env) (p : Bool) (pb : Val → Bool) (kvs 
           (fun kv hkv => by rw [h1.2]; exact ht kv (List.mem_cons_of_mem _ hkv)) h1.1
         exact ⟨this.1, by rw [this.2, h1.2]⟩
 
-/-- What is *assumed* about `Schema.apply` on the empty dict (used by `clear` only; modelled and
-checked by correspondence, not proved): its result conforms. -/
-def ClearConforms (env : Env) (p : Bool) (fields : List Field) : Prop :=
-  ∀ kvs, schemaApply env fields p [] = .ok kvs → ConformsD env p ⟨fields, kvs⟩
-
 def DictOp.trusted (env : Env) (fields : List Field) (p : Bool) : DictOp → Prop
   | .setitem k a => ArgTrusted env fields p k a
   | .setdefault k a => ArgTrusted env fields p k a
   | .update kvs => ∀ kv ∈ kvs, ArgTrusted env fields p kv.1 kv.2
   | _ => True
 
-/-- EVERY modelled dict / object mutator preserves the invariant, successful or failed. -/
-theorem C03_dict_preserve (env : Env) (p : Bool) (pb : Val → Bool) (d : TDict) (op : DictOp)
+/-- EVERY modelled dict / object mutator preserves the invariant, successful or failed, and keeps
+the schema.  `clear` re-applies the schema to the empty dict (defaults restored); that its result
+conforms is proved (`schemaApply_conforms`), not assumed.  `hd`: the schema's keys are distinct
+(what `Schema` enforces: its fields are a dict keyed by key spec). -/
+theorem C03_dict_preserve' (env : Env) (p : Bool) (pb : Val → Bool) (d : TDict) (op : DictOp)
+    (hd : distinctKeys (fieldKeySpecs d.fields) = true)
     (hI : ∀ f ∈ d.fields, Idem env p f.value) (ht : op.trusted env d.fields p)
-    (hclear : ClearConforms env p d.fields) (hc : ConformsD env p d) :
-    ConformsD env p (dictStep env p pb d op).1 := by
+    (hc : ConformsD env p d) :
+    ConformsD env p (dictStep env p pb d op).1 ∧ (dictStep env p pb d op).1.fields = d.fields := by
   cases op with
-  | setitem k a => exact (C03_dict_prim_preserve env p pb d k a hI ht hc).1
+  | setitem k a => exact C03_dict_prim_preserve env p pb d k a hI ht hc
   | delitem k =>
     simp only [dictStep]
     split
-    · exact hc
-    · exact (C03_dict_prim_preserve env p pb d k (.plain .missing) hI trivial hc).1
+    · exact ⟨hc, rfl⟩
+    · exact C03_dict_prim_preserve env p pb d k (.plain .missing) hI trivial hc
   | setdefault k a =>
     simp only [dictStep]
     split
     · split
-      · exact (C03_dict_prim_preserve env p pb d k a hI ht hc).1
-      · exact hc
-    · exact (C03_dict_prim_preserve env p pb d k a hI ht hc).1
-  | update kvs => exact (C03_dict_batch_preserve env p pb kvs d hI ht hc).1
+      · exact C03_dict_prim_preserve env p pb d k a hI ht hc
+      · exact ⟨hc, rfl⟩
+    · exact C03_dict_prim_preserve env p pb d k a hI ht hc
+  | update kvs => exact C03_dict_batch_preserve env p pb kvs d hI ht hc
   | clear =>
     simp only [dictStep]
     cases hs : schemaApply env d.fields p [] with
-    | ok kvs => exact hclear kvs hs
-    | error e => exact hc
-  | popitem => exact hc
+    | ok kvs => exact ⟨schemaApply_conforms env p d.fields hd hI [] kvs (by simp) hs, rfl⟩
+    | error e => exact ⟨hc, rfl⟩
+  | popitem => exact ⟨hc, rfl⟩
+
+theorem C03_dict_preserve (env : Env) (p : Bool) (pb : Val → Bool) (d : TDict) (op : DictOp)
+    (hd : distinctKeys (fieldKeySpecs d.fields) = true)
+    (hI : ∀ f ∈ d.fields, Idem env p f.value) (ht : op.trusted env d.fields p)
+    (hc : ConformsD env p d) : ConformsD env p (dictStep env p pb d op).1 :=
+  (C03_dict_preserve' env p pb d op hd hI ht hc).1
+
+/-- Construction yields a conforming dict: `pg.Dict(value, value_spec=Dict(fields), allow_partial=p)`
+(`kvs`: a Python dict, i.e. distinct keys). -/
+theorem C03_dict_construct (env : Env) (p : Bool) (fields : List Field) (kvs : List (String × Val)) (d : TDict)
+    (hd : distinctKeys (fieldKeySpecs fields) = true) (hI : ∀ f ∈ fields, Idem env p f.value)
+    (hnd : (kvs.map (·.1)).Nodup) (h : constructDict env p fields kvs = .ok d) :
+    ConformsD env p d ∧ d.fields = fields := by
+  unfold constructDict at h
+  cases hs : schemaApply env fields p kvs with
+  | error e => simp [hs] at h
+  | ok out =>
+    simp only [hs, Except.ok.injEq] at h
+    subst h
+    exact ⟨schemaApply_conforms env p fields hd hI kvs out hnd hs, rfl⟩
+
+/-- … and a conforming object: `Object.__init__(**kwargs)`. -/
+theorem C03_object_construct (env : Env) (p : Bool) (fields : List Field) (kwargs : List (String × Val)) (d : TDict)
+    (hd : distinctKeys (fieldKeySpecs fields) = true) (hI : ∀ f ∈ fields, Idem env p f.value)
+    (hnd : (kwargs.map (·.1)).Nodup) (h : constructObject env p fields kwargs = .ok d) :
+    ConformsD env p d ∧ d.fields = fields := by
+  unfold constructObject at h
+  split at h
+  · cases h
+  · split at h
+    · cases h
+    · exact C03_dict_construct env p fields kwargs d hd hI hnd h
+
+/-- The invariant holds along every history of dict / object mutations after construction — no
+assumed premise about any operation is left (typed-container arguments apart, see `ArgTrusted`). -/
+def runDictOps (env : Env) (p : Bool) (pb : Val → Bool) (d : TDict) : List DictOp → TDict
+  | [] => d
+  | op :: ops => runDictOps env p pb (dictStep env p pb d op).1 ops
+
+theorem C03_dict_history (env : Env) (p : Bool) (pb : Val → Bool) (ops : List DictOp) :
+    ∀ (d : TDict), distinctKeys (fieldKeySpecs d.fields) = true → (∀ f ∈ d.fields, Idem env p f.value) →
+      (∀ op ∈ ops, op.trusted env d.fields p) → ConformsD env p d →
+      ConformsD env p (runDictOps env p pb d ops) := by
+  induction ops with
+  | nil => intro d _ _ _ hc; exact hc
+  | cons op ops ih =>
+    intro d hd hI ht hc
+    obtain ⟨h1, h2⟩ := C03_dict_preserve' env p pb d op hd hI (ht op List.mem_cons_self) hc
+    exact ih _ (by rw [h2]; exact hd) (by rw [h2]; exact hI)
+      (fun o ho => by rw [h2]; exact ht o (List.mem_cons_of_mem _ ho)) h1
 
 /-- FULL STATEMENT without the trust hypothesis on typed arguments. -/
 def C03_dict_preserve_Full : Prop :=
